@@ -130,7 +130,7 @@ RULE = ("thorough, exhaustive: FillRequest.__init__ for every subset of {run,fil
         "branch given as element / tuple / FillRequestSeq, flows 0..8; every history over {fill, request(), reset()} of length "
         "<= 5 x bufsize 1..4 x modes x flags x {never raising, LenaStopFill from value 2 on (stored or not), from value 4 on}; "
         "Split (bufsize 1..5,7,None) and _run_fill_compute around an element that stops at value 1/3/5, flows 0..8; plus "
-        "seeded random: 60000 schedules for flows 9..40, 30000 histories of length 4..14 with reset()/LenaStopFill, 20000 "
+        "seeded random: 60000 schedules for flows 9..40, 20000 histories of length 4..14 with reset()/LenaStopFill, 20000 "
         "histories on the adapter that keeps generator objects (Python reference) against Eval.atRequest of the model. "
         "quick (<= 60 s): __init__ with buffer flags in {None,True}^2; run for all flows 0..8 (1-result "
         "element) and lengths 0,4,7,8 (variants); every subset of request points for flows 0..6 (1-result element) plus "
@@ -138,7 +138,7 @@ RULE = ("thorough, exhaustive: FillRequest.__init__ for every subset of {run,fil
         "random longer ones + 3000 on the generator-keeping adapter; Split for all flows 0..8 as element and lengths "
         "0,3,5,7,8 as tuple / FillRequestSeq (1-result, yield_on_remainder off), lengths 0,5,8 as element otherwise; 15% of the Split/LenaStopFill cases. "
         "Both tiers start with: __init__ with non-bool flags / float and fractional bufsize / a non-callable run attribute; "
-        "250 (500) long flows (20..48 values, few or no requests, Split block sizes 18..1000/None); 9000 (60000) random "
+        "250 (500) long flows (20..48 values, few or no requests, Split block sizes 18..1000/None); 9000 (40000) random "
         "combinations of: flow values from {None, 0, 7, (1, {'c': 1}), 'x', 2.5} with repetitions, result count depending on "
         "the element state (zero results for some blocks), methods named by the fill=/request=/reset_name= keywords (with "
         "decoys under the default names), float bufsize and truthy non-bool flags, results that are the element's live state "
@@ -1320,7 +1320,7 @@ def gen_cases(ctx):
     # --- long flows first (buffers larger than any constant in the code), then the other dimensions -----------
     for c in _long_cases(rng, 500 if thorough else 250):
         yield c
-    for c in _dimension_cases(rng, 60000 if thorough else 9000):
+    for c in _dimension_cases(rng, 40000 if thorough else 9000):
         yield c
     # --- a Run element that does not read its whole block ------------------------------------------
     for j in (0, 1, 2, 3, None):
@@ -1424,7 +1424,7 @@ def gen_cases(ctx):
                 if stop is not None and stop >= sum(1 for o in ops if isinstance(o, int)):
                     continue
                 yield xcase(cfg, ops, stop, stores)
-    for _ in range(30000 if thorough else 6000):
+    for _ in range(20000 if thorough else 6000):
         stop, stores = rng.choice(_STOPS)
         ops = random_history(4, 14)
         if rng.random() < 0.5:
